@@ -11,9 +11,9 @@ add/set/deleteRecords refine list append / replace-by-index / clear on this tabl
 paths read it, how the enclosing name is found, how far `resolve` follows CNAMEs, the sub-name conflict
 rule, and that expired names are unreachable.
 
-One read path deviates from the property on the current tree (finding F19, see the end of the file):
-`getRecords`/`getAllRecords` of a name two or more labels below its enclosing registered name FAULT,
-although `addRecord` stored the record and `resolve` returns it. -/
+The three read paths agree for every name at any depth below its enclosing registered name
+(`read_paths_agree`, `resolve_agrees_without_cname`; F19, where `getRecords`/`getAllRecords` tested the
+parent chain of the queried name, is repaired in the sources by f022f46). -/
 namespace NeoFS.Props.C12
 open NeoFS NeoFS.NNS
 
@@ -367,8 +367,8 @@ theorem getRecords_reads (s : State) (env : Env) (n : Name) (tb : Nat) (l : List
 
 /-- … and `getAllRecords` / every step of `resolve` iterate over a list whose entries of one type are that
 same list, in the same order: the three read paths see the same stored values. -/
-theorem allRecords_reads (s : State) (env : Env) (n : Name) (fr : Option (List Bytes)) (rs : List Rec) (hinv : RecInv s.recs)
-    (h : allRecords s env n fr = some rs) (tb : Nat) (hb : tb < 256) :
+theorem allRecords_reads (s : State) (env : Env) (n : Name) (rs : List Rec) (hinv : RecInv s.recs)
+    (h : allRecords s env n = some rs) (tb : Nat) (hb : tb < 256) :
     dataOf (tb : Int) rs = Recs s (tokenOf s env.now n) n tb := by
   unfold allRecords tokenIDFromName at h
   split at h
@@ -382,6 +382,33 @@ theorem allRecords_reads (s : State) (env : Env) (n : Name) (fr : Option (List B
         unfold dataOf Recs
         rw [← h, recsOfName_filter_type hinv _ n tb _ rfl hb]
     · simp at htok
+
+/-- The read paths agree for every name, at any depth below its enclosing registered name: `getAllRecords`
+answers exactly when the records of the name can be read through its enclosing name (`allRecords`, which
+is also what every step of `resolve` reads), with the same list; and `getRecords` answers exactly then, with
+the entries of the asked type of that list. All three FAULT together otherwise. -/
+theorem read_paths_agree (s : State) (env : Env) (n : Name) (tb : Nat) (hinv : RecInv s.recs)
+    (hl : isTLD n = false) (hb : tb < 256) :
+    getAllRecords s env n = allRecords s env n ∧
+    getRecords s env n (tb : Int) = (allRecords s env n).map (dataOf (tb : Int)) := by
+  have hlen := isTLD_false_of_len hl
+  constructor
+  · unfold getAllRecords; rw [if_neg hlen]
+  · unfold getRecords allRecords
+    dsimp only
+    rw [if_neg hlen]
+    cases htok : tokenIDFromName s env n with
+    | none => rfl
+    | some tok =>
+      dsimp only
+      cases hf : fragNameState s env.now tok (split dot tok) with
+      | none => rfl
+      | some ns =>
+        dsimp only
+        rw [byteOf_nat tb hb]
+        simp only [Option.map_some]
+        unfold dataOf
+        rw [recsOfName_filter_type hinv tok n tb _ rfl hb, filter_typ_id hinv tok n tb _ rfl]
 
 /-! ### which enclosing name holds the records -/
 
@@ -481,22 +508,46 @@ theorem resolve_unreachable_fault (s : State) (env : Env) (n : Name) (typ : Int)
   · rfl
   · rw [resolveAux_succ, h0]
 
+/-- `resolve` agrees with `getRecords` wherever no CNAME has to be followed (no CNAME record, or CNAME
+records are asked for): same answer, same FAULT — for a name written without the optional trailing dot. -/
+theorem resolve_agrees_without_cname (s : State) (env : Env) (n : Name) (tb : Nat) (hinv : RecInv s.recs)
+    (hl : isTLD n = false) (hb : tb < 256) (hdot : n.getLast? ≠ some dot)
+    (hc : ∀ rs, allRecords s env n = some rs → cnameOf rs = [] ∨ (tb : Int) = 5) :
+    resolve s env n (tb : Int) = getRecords s env n (tb : Int) := by
+  rw [(read_paths_agree s env n tb hinv hl hb).2]
+  have hne : n.length ≠ 0 := by
+    intro c
+    have : n = [] := List.eq_nil_of_length_eq_zero c
+    subst this
+    simp [isTLD, split] at hl
+  have hhop : hop s env n = allRecords s env n := by
+    unfold hop stripDot
+    rw [if_neg hne, if_neg hdot]
+  cases hr : allRecords s env n with
+  | none =>
+    rw [resolve_unreachable_fault s env n _ (by rw [hhop, hr])]; rfl
+  | some rs =>
+    rw [resolve_direct s env n _ rs hl (by rw [hhop, hr]) (hc rs hr)]; rfl
+
 /-! ### expired ⇒ unreachable -/
 
 /-- Records are read only through an enclosing name that is registered and unexpired at the block time,
-below unexpired parents: whatever is stored under an expired name is unreachable for all three read paths. -/
+below unexpired parents of that enclosing name: whatever is stored under an expired name is unreachable for
+all three read paths (`allRecords` is what `getAllRecords` and every step of `resolve` read). -/
 theorem reads_only_live_token (s : State) (env : Env) (n : Name) :
     (∀ typ l, getRecords s env n typ = some l →
-        live s env.now (tokenOf s env.now n) = true ∧ parentExpired s env.now 1 (split dot n) = false) ∧
+        live s env.now (tokenOf s env.now n) = true ∧
+        parentExpired s env.now 1 (split dot (tokenOf s env.now n)) = false) ∧
     (∀ rs, getAllRecords s env n = some rs →
-        live s env.now (tokenOf s env.now n) = true ∧ parentExpired s env.now 1 (split dot n) = false) ∧
-    (∀ rs, allRecords s env n none = some rs →
+        live s env.now (tokenOf s env.now n) = true ∧
+        parentExpired s env.now 1 (split dot (tokenOf s env.now n)) = false) ∧
+    (∀ rs, allRecords s env n = some rs →
         live s env.now (tokenOf s env.now n) = true ∧
         parentExpired s env.now 1 (split dot (tokenOf s env.now n)) = false) := by
-  have key : ∀ fr rs, allRecords s env n fr = some rs →
+  have key : ∀ rs, allRecords s env n = some rs →
       live s env.now (tokenOf s env.now n) = true ∧
-      parentExpired s env.now 1 (fr.getD (split dot (tokenOf s env.now n))) = false := by
-    intro fr rs h
+      parentExpired s env.now 1 (split dot (tokenOf s env.now n)) = false := by
+    intro rs h
     unfold allRecords tokenIDFromName at h
     split at h
     · simp at h
@@ -509,7 +560,7 @@ theorem reads_only_live_token (s : State) (env : Env) (n : Name) :
           obtain ⟨g1, g2, g3⟩ := fragNameState_some hns
           exact ⟨(live_iff _ _ _).mpr ⟨ns, g1, g2⟩, g3⟩
       · simp at htok
-  refine ⟨?_, ?_, fun rs h => key none rs h⟩
+  refine ⟨?_, ?_, key⟩
   · intro typ l h
     unfold getRecords tokenIDFromName at h
     dsimp only at h
@@ -528,10 +579,9 @@ theorem reads_only_live_token (s : State) (env : Env) (n : Name) :
         · simp at htok
   · intro rs h
     unfold getAllRecords at h
-    dsimp only at h
     split at h
     · simp at h
-    · exact key _ rs h
+    · exact key rs h
 
 /-! ### the sub-name conflict rule -/
 
@@ -562,39 +612,7 @@ theorem register_conflict_rule (s s' : State) (env : Env) (n : Name) (o : Hash) 
   unfold parentName at this
   rw [hcf] at this; simp at this
 
-/-! ### F19: `getRecords` / `getAllRecords` below a deeper enclosing name
-
-Full-strength statement demanded by the property (FALSE of the code, see the negation below):
-
-  theorem read_paths_agree : RecInv s.recs → isTLD n = false → allRecords s env n none = some rs →
-      getRecords s env n tb = some (dataOf tb rs) ∧ (getAllRecords s env n).isSome
-
-`getRecords`/`getAllRecords` test the parent chain of the *queried name* instead of the chain of the
-enclosing registered name, so they FAULT for a name two or more labels below its enclosing name, where the
-intermediate labels are (necessarily) unregistered. -/
-
-/-- exact characterisation of the deviating inputs: when `getRecords` (or `getAllRecords`) answers for a
-name of three or more labels, the records live under the name itself or under its direct parent -/
-theorem getRecords_answers_shallow_partial (s : State) (env : Env) (n : Name) (typ : Int) (l : List Bytes)
-    (hl : (split dot n).length ≥ 3) (h : getRecords s env n typ = some l) :
-    tokenOf s env.now n = n ∨ tokenOf s env.now n = parentName n := by
-  obtain ⟨_, hp⟩ := (reads_only_live_token s env n).1 typ l h
-  apply tokenOf_shallow s env.now n hl
-  apply (parentExpired_false_iff s env.now 1 _).mp hp
-  unfold chain
-  cases hs : split dot n with
-  | nil => rw [hs] at hl; simp at hl
-  | cons f0 r0 =>
-    cases r0 with
-    | nil => rw [hs] at hl; simp at hl
-    | cons f1 r1 => simp [suffixes]
-
-/-- wherever both answer, they agree (the part of the full statement that holds) -/
-theorem read_paths_agree_partial (s : State) (env : Env) (n : Name) (tb : Nat) (l : List Bytes) (rs : List Rec)
-    (hinv : RecInv s.recs) (hb : tb < 256)
-    (h1 : getRecords s env n (tb : Int) = some l) (h2 : allRecords s env n none = some rs) :
-    l = dataOf (tb : Int) rs := by
-  rw [getRecords_reads s env n tb l hinv hb h1, allRecords_reads s env n none rs hinv h2 tb hb]
+/-! ### concrete names and histories for the examples -/
 
 def U1 : Hash := List.replicate 20 1
 def U2 : Hash := List.replicate 20 2
@@ -619,13 +637,12 @@ def hist0 : List (Env × Op) :=
    (envU U1 2000, .register aCom U1 mail 1 2 1000 4), (envU U1 2001, .register bCom U1 mail 1 2 1000 4),
    (envU U1 2002, .register cCom U1 mail 1 2 1000 4), (envU U1 2003, .register dCom U1 mail 1 2 1000 4)]
 
-/-- kernel-checked negation of the full statement: after a successful `addRecord("x.y.a.com", TXT, "one")`
-(only `a.com` registered) `resolve` returns the record, `getRecords` and `getAllRecords` FAULT -/
-theorem read_paths_disagree_deep_subname :
-    ∃ (s : State) (env : Env) (n : Name), RecInv s.recs ∧ isTLD n = false ∧
-      resolve s env n 16 = some [one] ∧ getRecords s env n 16 = none ∧ getAllRecords s env n = none := by
-  refine ⟨(invoke (run init hist0) (envU U1 3000) (.addRecord xYACom 16 one)).1, envU U2 3001, xYACom,
-    recInv_step _ _ _ (recInv_run hist0 init recInv_nil), ?_, ?_, ?_, ?_⟩ <;> decide
+/-- F19 repaired (f022f46): after `addRecord("x.y.a.com", TXT, "one")` with only `a.com` registered, all three
+read paths return the record (before the repair `getRecords` and `getAllRecords` FAULTed here) -/
+def sDeep : State := (invoke (run init hist0) (envU U1 3000) (.addRecord xYACom 16 one)).1
+example : resolve sDeep (envU U2 3001) xYACom 16 = some [one] := by decide
+example : getRecords sDeep (envU U2 3001) xYACom 16 = some [one] := by decide
+example : (getAllRecords sDeep (envU U2 3001) xYACom).map (fun rs => rs.map (·.data)) = some [one] := by decide
 
 /-! ### hex-LE contract-address records -/
 
